@@ -508,13 +508,13 @@ static void runMergeTask(W& w, const MergeTask& t, char oracle)
 
 // ---------------------------------------------------------------------------------------------
 // C17 alphabet (state-relative)
-constexpr int SYM_PER_EP = 20;
+constexpr int SYM_PER_EP = 21;
 // endpoint D takes part with a reduced symbol set {U, F, I, L, payload-type 0}
 constexpr int ND = 5;
 static const int kDKinds[ND] = {0, 2, 5, 6, 12};
 constexpr int EPLESS = 3 * SYM_PER_EP + ND;   // first endpoint-less symbol
 constexpr int NSYM = EPLESS + 3;
-static const char* kSymName[SYM_PER_EP] = {"U", "UU", "F", "Ft", "F2", "I", "L", "Ib", "Lb", "Lv", "Lt", "It", "Z", "E", "O", "H", "UF", "P", "UI", "UL"};
+static const char* kSymName[SYM_PER_EP] = {"U", "UU", "F", "Ft", "F2", "I", "L", "Ib", "Lb", "Lv", "Lt", "It", "Z", "E", "O", "H", "UF", "P", "UI", "UL", "P1"};
 
 static std::string symName(int sym)
 {
@@ -615,6 +615,14 @@ static Bytes symbolFrame(int sym, const ref::ReassemblyModel& m, bool& isNull, i
         case 16: fh.seq = 300; return ref::buildFrame(fh, {seg(0, 2, 17), seg(ref::SEG_FIRST, 3, 18)});
         // an unsegmented message followed, in the SAME frame, by a continuation with the right counter: the first supersedes
         // the open message, so the continuation is an orphan
+        case 20:
+        {
+            // frame header plus ONE byte: the shortest remainder that is not a message (aborts like any invalid message)
+            fh.seq = next;
+            Bytes f = ref::buildFrame(fh, {});
+            f.push_back(0x01);
+            return f;
+        }
         case 18: fh.seq = next; fh.version = over; fh.msgType = otyp; return ref::buildFrame(fh, {seg(0, 2, 20), seg(ref::SEG_MID, 3, 21)});
         case 19: fh.seq = next; fh.version = over; fh.msgType = otyp; return ref::buildFrame(fh, {seg(0, 2, 22), seg(ref::SEG_LAST, 2, 23)});
         default:
@@ -1204,8 +1212,8 @@ int main(int argc, char** argv)
             run.rule = "on every path of the C05 interleaving exploration and of the C17 symbol tree/BFS the shared real Decoder is compared, frame by "
                        "frame, with a solo real Decoder per endpoint that is fed only that endpoint's frames; distinct = distinct (state, delivery) outcomes";
         else
-            run.rule = "68-symbol state-relative alphabet (per endpoint: U, UU, F, F+trailing@65535, F v2/status@32767, I/L correct, I/L counter+2, L wrong "
-                       "version, L wrong type, I+trailing, payload-type 0, error flag, overrunning length, header-only, [U][F], [U][I], [U][L], partial header; plus "
+            run.rule = "71-symbol state-relative alphabet (per endpoint: U, UU, F, F+trailing@65535, F v2/status@32767, I/L correct, I/L counter+2, L wrong "
+                       "version, L wrong type, I+trailing, payload-type 0, error flag, overrunning length, header-only, [U][F], [U][I], [U][L], partial header, header + 1 byte; plus "
                        "5-byte buffer, nullptr, TECMP frame): unmerged tree of copied real Decoders + BFS merged on (model state, verifPending dump); "
                        "invariant after every transition; distinct = distinct merged states";
         return run.finish();
